@@ -70,6 +70,17 @@ def hotfix_spec(depth):
                 continue_after_admin=True)
 
 
+def after_merge_spec(layout, dst, depth):
+    """Admin jobs in states reached after a pull request went through the
+    queue and was merged (empty queue branches are left behind), with and
+    without another pull request queued on a later branch."""
+    return spec('c20-q-%s-after-merge' % layout, layout, None, None, True,
+                depth,
+                init=[['open', 'bugfix/TEST-0', dst], ['eval_pr', 1],
+                      ['ci_q_all', 'SUCCESSFUL'], ['eval_pr', 1],
+                      ['open', PR2, 'development/5.1']])
+
+
 def recreate_spec(layout, names, depth):
     """Delete development branches, then ask for them again (archived
     versions must be refused) - admin jobs are not terminal here."""
@@ -92,7 +103,8 @@ def specs(tier):
                      True, 3),
                 hotfix_spec(6),
                 recreate_spec('D3', ['development/10.0', 'development/4.3'],
-                              4)]
+                              4),
+                after_merge_spec('S3', 'stabilization/4.3.18', 2)]
     return [spec('c20-q-D3', 'D3', 'development/4.3', 'development/5.1',
                  True, 5),
             spec('c20-noq-D3', 'D3', 'development/4.3', 'development/5.1',
@@ -106,6 +118,9 @@ def specs(tier):
             spec('c20-noq-H3', 'H3', 'hotfix/4.2.17', 'development/4.3',
                  False, 3),
             hotfix_spec(8),
+            after_merge_spec('S3', 'stabilization/4.3.18', 4),
+            after_merge_spec('D3', 'development/4.3', 4),
+            after_merge_spec('H3', 'hotfix/4.2.17', 4),
             recreate_spec('D3', ['development/10.0', 'development/4.3',
                                  'development/5.1'], 6),
             recreate_spec('S3', ['development/5.1', 'stabilization/4.3.18',
